@@ -278,6 +278,25 @@ def eq_type_guard(prog, rep, rule="eq-type-guard"):
                         rep.fail(rule, m.path.name, f"{c.name}.__eq__", call, f"`{norm(call)}` accepts every {k.name}: objects of other classes (other block types) can compare equal to a {c.name}")
                     else:
                         rep.ok(rule, f"{c.name}.__eq__ tests isinstance(other, {call.args[1].id})")
+            # without such a test (byte-level comparisons) `other` may be ANY block of a file compared slot by slot: only what every
+            # block has may be read from it, or the comparison raises AttributeError instead of answering False
+            guarded = any(isinstance(call, ast.Call) and norm(call.func) == "isinstance" and len(call.args) == 2 and norm(call.args[0]) == o for call in walk_no_nested(f.node))
+            is_block = any(b.name == "Block" for b in prog.mro(c))
+            if not guarded and is_block:
+                common = set()
+                for b in prog.mro(c):
+                    if b is c or b.module.name != "tdfBlock":
+                        continue
+                    common |= {fn.name for fn in b.all_funcs()} | set(b.assigns)
+                    init_b = b.get("__init__")
+                    if init_b is not None:
+                        common |= {t.attr for st in ast.walk(init_b.node) if isinstance(st, ast.Assign) for t in st.targets if isinstance(t, ast.Attribute) and isinstance(t.value, ast.Name) and t.value.id == "self"}
+                for x in walk_no_nested(f.node):
+                    if isinstance(x, ast.Attribute) and isinstance(x.value, ast.Name) and x.value.id == o and isinstance(x.ctx, ast.Load) and x.attr not in common:
+                        rep.fail(rule, m.path.name, f"{c.name}.__eq__", x, f"`{norm(x)}` is read from the other operand without a test that it is a {c.name}: blocks of other types (an unused slot, "
+                                 f"an EMG block in the same slot of another file) have no `{x.attr}`, so comparing files raises AttributeError instead of answering False",
+                                 construct=f"{c.name}.__eq__ reads other.{x.attr} unguarded")
+                        break
     rep.floor(rule, n, 12)
 
 
@@ -381,6 +400,12 @@ def run(prog, rep):
     # the byte-level comparisons are faithful to content only while the numeric primitive encodes CONTENT (element order C,
     # fixed dtype), not the memory layout of the array that happens to hold it
     rep.attempt(PR.tdftype_primitives, prog, rep)
+    # 'equal to the block obtained by encoding and decoding it': the decode IS the block only if writer and reader agree field by field
+    # and every stored field comes back in its own attribute (C01's term comparison and attribute linkage, a premise here)
+    from .c01 import attr_linkage, report_unit
+    for u_ in [x for x in cd.units.values() if x.name not in ("TdfEntry",)]:
+        rep.attempt(report_unit, rep, cd, u_, rule="decode-symmetry")
+        rep.attempt(attr_linkage, rep, cd, u_, rule="decode-symmetry")
     # .. and 'equal to the block obtained by encoding and decoding it' needs the channel numbers to come back as stored: the decoders
     # rebuild channel-mapped blocks through the adders, whose pairing / explicit-channel rules are C15's
     from .c01 import equivalence_discharge
